@@ -180,14 +180,14 @@ func (ts *TimeSeries) TakeFrom(src []byte) ([]byte, error) {
 		return nil, err
 	}
 
-	if ts.step == 0 {
-		return nil, errors.New("step must not be zero")
+	if ts.step <= 0 {
+		return nil, errors.New("step must be positive")
 	}
 	if ts.untilTime < ts.fromTime {
 		return nil, errors.New("untilTime is older than fromTime")
 	}
 
-	n := int(ts.untilTime.Sub(ts.fromTime) / ts.step)
+	n := int((int64(ts.untilTime) - int64(ts.fromTime)) / int64(ts.step))
 	wantedSize := n * float64Size
 	if len(src) < wantedSize {
 		return nil, &WantLargerBufferError{WantedBufSize: 3*uint32Size + wantedSize}
@@ -284,6 +284,10 @@ func (pp *Points) TakeFrom(src []byte) ([]byte, error) {
 	count := int(binary.BigEndian.Uint64(src))
 	src = src[uint64Size:]
 
+	const maxInt = int(^uint(0) >> 1)
+	if count < 0 || count > (maxInt-uint64Size)/pointSize {
+		return nil, errors.New("invalid points count")
+	}
 	wantedSize := count * pointSize
 	if len(src) < wantedSize {
 		return nil, &WantLargerBufferError{WantedBufSize: uint64Size + wantedSize}
